@@ -10,7 +10,7 @@ META = {
     "level": "model_checking",
     "engine": "sync",
     "technique": "TLA+ spec PeerCache model-checked with TLC; every reachable state's witness path and every outgoing transition replayed into aranya_runtime::PeerCache::add_command on real committed/flushed storage (spec->impl conformance)",
-    "text": "TLC enumerates every DAG shape (canonical numbering) up to the bound, every labelling of its commands as committed / flushed-but-uncommitted / unknown, and every sequence of add_command calls over right and wrong-max-cut addresses (invariants: <= Cap entries, entries committed, antichain, no duplicates; action property: only ancestors of the recorded command are removed, uncommitted or covered commands are ignored, a recordable command is recorded unless the cache is full).  The cache is a sequence, so spec state = implementation state and covering every transition covers every behaviour: for each reachable state the engine builds a real replica (stretched chains, seeded segment layout, open flushed transaction), replays the witness path and then every address from that state, deciding the property on heads() after every call and comparing with the spec's successor.  A 12-wide star exercises the capacity rule with the code's capacity.",
+    "text": "TLC enumerates every DAG shape (canonical numbering) up to the bound, every labelling of its commands as committed / flushed-but-uncommitted / unknown, and every sequence of add_command calls over right and wrong-max-cut addresses (invariants: <= Cap entries, entries committed, antichain, no duplicates; action property: only ancestors of the recorded command are removed, uncommitted or covered commands are ignored, a recordable command is recorded unless the cache is full).  The cache is a sequence, so spec state = implementation state and covering every transition covers every behaviour: for each reachable state the engine builds a real replica (stretched chains, seeded segment layout, open flushed transaction), replays the witness path and then every address from that state, deciding the property on heads() after every call and comparing with the spec's successor.  A 12-wide star exercises the capacity rule with the code's capacity.  At system level the caches filled by real sync sessions (requester side through update_heads, responder side through poll and subscribe) are read at every session start/end and Trace_Sync checks them against both replicas' command sets: at most ten distinct entries, each committed by the owner, each held by the peer, no entry an ancestor of another.",
     "note": "Bounds: shapes <= 4 nodes (thorough 5), sequences <= 6, star 12 siblings + grandchild with sequences <= 14 (sibling symmetry), design-level run with Cap=2 on shapes <= 5.  Trusts the harness policy (accept-all) and the in-memory linear storage backend; storage errors inside retain are not modelled.",
 }
 
@@ -69,6 +69,15 @@ def run(ctx):
     st = ctx.run_engine(vh, "peercache", [bad], tag="selftest")
     if not st or st[0].get("ok"):
         raise verif.ToolError("binding self-test failed: perturbed expectation accepted")
+    # system level: the caches that real sessions fill (requester's via update_heads, responder's via
+    # poll / subscribe) checked by Trace_Sync on recorded sessions
+    rp = ctx.tlc("SyncAbs", "MC_SyncAbs_pairs5.cfg" if ctx.thorough else "MC_SyncAbs_pairs4.cfg", timeout=900, coverage=False)
+    scases, npinned = su.build_cases(ctx, rp.replays, pingpong=0.6, deep=True, limit=400 if ctx.thorough else 90)
+    for c in scases[:npinned]:
+        c["deep"] = True
+    sres, sbad, slines = su.run_sessions(ctx, vh, scases, tag="cache-sessions")
+    su.report(ctx, "C20", scases, sres, sbad)
+    ctx.traces += len(scases)
     steps = sum(len(b["steps"]) + len(b["fan"]) * (len(b["steps"]) + 1) for b in beh + star)
     ctx.cov.update({
         "exhaustive": True,
@@ -79,6 +88,7 @@ def run(ctx):
         "star_states_with_full_cache": full,
         "labellings": len({su.group_key(b) for b in beh}),
         "selftest": "dropped expected entry rejected",
+        "session_cases_with_cache_clauses": len(scases), "session_trace_events": slines,
     })
     ctx.assumptions += ["harness accept-all policy and in-memory linear storage stand in for production policy/storage",
                         "addresses offered are the attach points of abstract nodes (chain heads / first fan element), with right or off-by-one max cut"]
